@@ -426,8 +426,15 @@ bool ManifestParser::ParseFileInclude(bool new_scope, string* err) {
     return false;
   string path = eval.Evaluate(env_);
 
+  // A file that (indirectly) includes itself would otherwise recurse until
+  // the stack overflows.
+  const int kMaxIncludeDepth = 200;
+  if (include_depth_ >= kMaxIncludeDepth)
+    return lexer_.Error("include nesting too deep (include cycle?)", err);
+
   if (subparser_ == nullptr) {
     subparser_.reset(new ManifestParser(state_, file_reader_, options_));
+    subparser_->include_depth_ = include_depth_ + 1;
   }
   if (new_scope) {
     subparser_->env_ = new BindingEnv(env_);
